@@ -10,6 +10,9 @@ def run(rep, tier, seed):
     feed(rep, more_checks.c09, 9000 + seed, tier, 'forward drivers vs exact derivatives',
          'init_jacobian/init_jac_vec/init_hessian/init_hess_vec/init_tensor(d) + matching extract_* on generated polynomial programs with integer coefficients at integer points (tolerance 1e-12, also with an int-dtype seed) and on smooth corpus programs (1e-9); oracle: sympy derivatives of the same program text; tensors: all distinct d-th order partials divided by the multi-index factorial',
          'N <= 5, tensor order d <= 4, programs <= 5 ops', lambda c: ('fwd-driver:%s' % c.get('driver'), 'N=%s' % c.get('N')))
+    feed(rep, more_checks.c09_tensors, 9100 + seed, tier, 'derivative tensors of dense polynomials',
+         'init_tensor(d)/extract_tensor for d = 1..5 on fixed integer polynomials whose mixed partial derivatives of every order are non-zero, at integer points, against sympy; all distinct d-th order partials divided by the multi-index factorial',
+         'N <= 4, d <= 5', lambda c: ('fwd-driver:%s' % c.get('driver').split('[')[0], 'N=%s' % c.get('N')))
     rep.extra['explanation'] = 'hybrid: index-map obligations (ixvc) where proved + bounded exhaustive comparison with exact derivatives; counted separately'
     rep.assume(ASSUME['A6'], 'sympy differentiation trusted')
     return rc
